@@ -200,21 +200,25 @@ func boot(raw json.RawMessage) (interface{}, error) {
 		}
 	}
 	if a.RecoverB {
-		// production starts the recovery of segments missing from segmeta.json as a goroutine; wait for it, then run the
-		// same (idempotent) step synchronously so that answers do not depend on its timing
-		for i := 0; i < 500; i++ {
+		// production starts the recovery of segments missing from segmeta.json as a goroutine (initSyncSegMetaForAllIds);
+		// wait until it has run: look for it for up to 60 ms, and once seen wait until it is gone. The step is not run a
+		// second time by the harness (two concurrent runs could both register the same segment).
+		seen := false
+		start := time.Now()
+		for time.Since(start) < 5*time.Second {
 			busy := false
 			for sig := range GoroutineSignatures() {
 				if strings.Contains(sig, "initSyncSegMetaForAllIds") {
 					busy = true
 				}
 			}
-			if !busy {
+			if busy {
+				seen = true
+			} else if seen || time.Since(start) > 60*time.Millisecond {
 				break
 			}
-			time.Sleep(2 * time.Millisecond)
+			time.Sleep(time.Millisecond)
 		}
-		query.VerifSyncSegMeta(serverutils.GetMyIds())
 	}
 	booted = true
 	return map[string]interface{}{"dir": a.Dir}, nil
